@@ -191,7 +191,7 @@ def appendTail (g : Graph) (c : Cont) (k : Nat) : Except Err Graph :=
                 | some l => .ok (l.2 == k)
                 | none => .ok false
               | none => .ok false
-          | .sourceLink, some b => .ok (inSourceTree g b id)
+          | .sourceLink, some b => .ok (inSourceTree g b id && inSourceTreeObj g b k)
           | _, _ => .ok false
         match accepted with
         | .error e => .error e
